@@ -920,6 +920,7 @@ def _run_evaluator(case):
 
 
 def run(case):
+  case = case['case'] if 'kind' not in case and 'case' in case else case      # corpus entries wrap the case
   if case['kind'] == 'stat':
     return _run_stat(case)
   if case['kind'] == 'algebra':
@@ -963,6 +964,7 @@ def _value_kind(case):
 
 
 def oracle(case, obs):
+  case = case['case'] if 'kind' not in case and 'case' in case else case      # corpus entries wrap the case
   if case['kind'] == 'flagbatch':
     if obs['sub'] is None:
       return [('flag-subprocess-failed', f'{case["flag"]}={case["value"]}: {obs["sub_error"]}')]
@@ -984,7 +986,9 @@ def _oracle(case, obs):
   if case['kind'] == 'evaluator':
     return _evaluator_oracle(case, obs)
   if obs.get('error'):
-    key = 'per-domain-per-position-raises' if case.get('model') == 'pdpp' else 'raises-' + obs['error']
+    # the known finding is exactly: the per-position base under PerDomainMetric (own Model) fails with a broadcasting ValueError
+    known = (case.get('model') == 'pdpp' and obs['error'] == 'ValueError' and 'broadcast' in (obs.get('message') or '').lower())
+    key = 'per-domain-per-position-raises' if known else 'raises-' + obs['error']
     return [(key, f'{case["metric"]} ({case.get("api", case["kind"])}): evaluation raised {obs["error"]}: {obs.get("message")}')]
   if obs['uncovered']:
     out.append(('uncovered-metric', 'built-in metric classes without a harness entry: ' + ', '.join(obs['uncovered'])))
@@ -1207,6 +1211,7 @@ def _nql(vs):
 
 
 def encode(case, obs):
+  case = case['case'] if 'kind' not in case and 'case' in case else case      # corpus entries wrap the case
   if obs.get('error') or case['kind'] == 'flagbatch' or case.get('nf'):
     return None
   if case['kind'] == 'stat' and case['op'] == 'apply_mask':
@@ -1270,6 +1275,7 @@ def encode(case, obs):
 
 
 def nontrivial(case, obs):
+  case = case['case'] if 'kind' not in case and 'case' in case else case      # corpus entries wrap the case
   if obs.get('error') or case['kind'] == 'flagbatch':
     return False
   if case['kind'] == 'stat':
@@ -1284,6 +1290,7 @@ def nontrivial(case, obs):
 
 
 def describe(case, obs):
+  case = case['case'] if 'kind' not in case and 'case' in case else case      # corpus entries wrap the case
   if case['kind'] == 'flagbatch':
     return {'kind': 'flagbatch', 'flag': case['flag']}
   if obs.get('error'):
@@ -1311,6 +1318,7 @@ def describe(case, obs):
 
 
 def shrink(case):
+  case = case['case'] if 'kind' not in case and 'case' in case else case
   if case['kind'] == 'algebra' and len(case['rows']) > 3:
     for i in range(len(case['rows'])):
       yield {**case, 'rows': case['rows'][:i] + case['rows'][i + 1:]}
